@@ -5,7 +5,7 @@ import random
 
 import numpy as np
 
-from vlib import coherence, evlog, gens, instr_mp, models, tilegen
+from vlib import coherence, evlog, gens, instr_mp, models, sched, tilegen
 from vlib import ref_quadtree as rq
 from vlib import ref_toast as rt
 
@@ -16,7 +16,8 @@ CASE_TIMEOUT = 400
 RULE = (
     "one case = one real sampling run (sample_layer, sample_layer_filtered, Builder.toast_base or `toasty tile-allsky`) at depth 0-3(4), "
     "one coordinate system, one format (npy/fits/png/jpg), one sampler kind (position-revealing F64/F32, U8, I16, RGB, RGBA with undefined "
-    "regions), clobber or update mode (update also over tiles left by a previous update pass), k in {1,2,5} workers, optional filter "
+    "regions), clobber or update mode (update also over tiles left by a previous update pass, or the two update passes as two concurrent jobs "
+    "on one pyramid under statement-boundary delays), k in {1,2,5} workers under a delay profile (incl. producer stalls), optional filter "
     "(position set or lat/lon box). Oracle: the files are read with numpy/PIL/astropy; tile p exists iff p is a reference leaf (and its "
     "data are not entirely undefined); in display orientation (FITS rows reversed) pixel (i,j) equals sampler(lon[i,j], lat[i,j]) EXACTLY, "
     "(lon,lat) = toast_tile_get_coords(create_single_tile(p)); update mode: defined sampler pixels replace, undefined keep the old value; "
@@ -51,6 +52,12 @@ def cases(tier, seed):
         out.append(dict(entry=entry, depth=depth, cs=R.choice(["astronomical", "planetary"]), fmt=fmt, sampler=smp, mode=mode,
                         par=R.choice([1, 2, 5]), filt=(R.choice([None, "posset", "box"]) if entry != "sample_layer" and mode != "clobber" else None),
                         seed=R.randrange(1 << 30)))
+        # update mode exists for several jobs working on one pyramid at once: the two update passes run as concurrent jobs
+        out[-1]["concurrent"] = (mode == "update2" and i % 2 == 0)
+    for i in range(14 if tier == "quick" else 120):
+        fmt, smp = R.choice([("npy", "f32"), ("npy", "f64pos"), ("npy", "rgba"), ("fits", "f32"), ("fits", "i16"), ("png", "rgba"), ("npy", "u8")])
+        out.append(dict(entry=R.choice(["sample_layer_filtered", "toast_base"]), depth=R.choice([1, 1, 2]), cs=R.choice(["astronomical", "planetary"]), fmt=fmt, sampler=smp,
+                        mode="update2", par=1, filt=R.choice([None, None, "posset"]), seed=R.randrange(1 << 30), concurrent=True))
     for i in range(3 if tier == "quick" else 20):
         out.append(dict(entry="cli", depth=R.choice([0, 1, 2]), cs=R.choice(["astronomical", "planetary"]), fmt="png", sampler="map", mode="clobber", par=R.choice([1, 2]), filt=None, seed=R.randrange(1 << 30)))
     return out
@@ -192,9 +199,12 @@ def run_case(spec, workdir):
         passes = passes[:1] if spec["mode"] != "update2" else [make_sampler("rgb"), make_sampler("rgb")]
     results = {}
     captured_all = {}
+    conc = bool(spec.get("concurrent")) and len(passes) == 2
     for tag, k in (("serial", 1), ("par", par)):
-        if tag == "par" and par == 1:
+        if tag == "par" and par == 1 and not conc:
             continue
+        if tag == "par" and conc:
+            k = 1
         base = os.path.join(workdir, tag)
         pio = LoggingPIO(base, default_format=fmt)
         captured = {}
@@ -202,7 +212,7 @@ def run_case(spec, workdir):
             pio.capture = lambda pos, image, kw, c=captured: c.__setitem__(tuple(pos), np.array(image.asarray()))
         log = os.path.join(workdir, "log-" + tag)
         evlog.open_log(log)
-        instr_mp.install("natural" if k == 1 else R.choice(["natural", "jitter", "slow_feeder", "slow_workers"]), spec["seed"])
+        instr_mp.install("natural" if k == 1 else R.choice(["natural", "jitter", "slow_feeder", "slow_workers", "stall", "late_check"]), spec["seed"])
 
         def slow(f):
             # in parallel runs some tiles take much longer than every (dilated) time-out of the shutdown handshake
@@ -215,8 +225,8 @@ def run_case(spec, workdir):
 
             return g
 
-        def fn():
-            for s in map(slow, passes):
+        def fn(which=None):
+            for s in map(slow, passes if which is None else [passes[which]]):
                 if spec["entry"] == "sample_layer":
                     toast.sample_layer(pio, s, depth, coordsys=cs, parallel=k)
                 elif spec["entry"] == "sample_layer_filtered":
@@ -228,7 +238,9 @@ def run_case(spec, workdir):
                         kw["tile_filter"] = filt or (lambda t: True)
                     b.toast_base(s, depth, is_planet=pl, **kw)
 
-        if k > 1:
+        if tag == "par" and conc:
+            outcome, info = run_concurrent_jobs(fn, spec["seed"])
+        elif k > 1:
             outcome, info = models.run_stage(fn, log, "producer", watchdog=200)
         else:
             evlog.ev("stage_call")
@@ -324,12 +336,58 @@ def run_case(spec, workdir):
     counters["mode_%s" % spec["mode"]] += 1
     counters["depth_%d" % depth] += 1
     counters["entry_" + spec["entry"]] += 1
+    counters["concurrent_job_pairs"] = int(conc)
     res = dict(counters=dict(counters), nontrivial=(len(leaves) >= 4 or depth == 0), sets=dict(fmt_sampler_mode=[[fmt, spec["sampler"], spec["mode"]]]),
                sample=dict(spec=spec, leaves=len(leaves), tiles_compared=ntiles))
     if probs:
         keys = sorted({k for k, _ in probs})
         res.update(status="violation", key="+".join(keys)[:140], detail="; ".join(t for _, t in probs[:6]))
     return res
+
+
+def run_concurrent_jobs(fn, seed):
+    """the two update passes as two concurrent jobs (processes) on one pyramid, each descheduled at random between
+    statements of toasty's tile I/O; returns (outcome, info) like models.run_stage"""
+    import signal
+    import time
+
+    go_r, go_w = os.pipe()
+    pids = []
+    for j in (0, 1):
+        pid = os.fork()
+        if pid == 0:
+            code = 0
+            try:
+                os.close(go_w)
+                os.read(go_r, 1)
+                sched.install(seed + j, p=0.03, files=("pyramid.py",), lo=0.001, hi=0.03, budget=1.0)
+                fn(j)
+            except BaseException as e:  # noqa
+                evlog.ev("stage_exc", e=repr(e)[:300], etype=type(e).__name__)
+                code = 3
+            finally:
+                os._exit(code)
+        pids.append(pid)
+    os.close(go_r)
+    os.close(go_w)  # both jobs see end-of-file at the same moment
+    t0 = time.time()
+    codes = {}
+    while len(codes) < 2 and time.time() - t0 < 150:
+        for p in pids:
+            if p not in codes:
+                r, st = os.waitpid(p, os.WNOHANG)
+                if r:
+                    codes[p] = os.waitstatus_to_exitcode(st)
+        time.sleep(0.01)
+    if len(codes) < 2:
+        for p in pids:
+            if p not in codes:
+                os.kill(p, signal.SIGKILL)
+                os.waitpid(p, 0)
+        return "watchdog", {}
+    if any(codes.values()):
+        return "raised", dict(exit=sorted(codes.values()))
+    return "returned", {}
 
 
 def case_cli(spec, workdir, R):
@@ -390,7 +448,7 @@ def case_cli(spec, workdir, R):
 
 def finish(agg, tier):
     c = agg["counters"]
-    miss = [k for k in ("fmt_npy", "fmt_fits", "fmt_png", "fmt_jpg", "mode_clobber", "mode_reclobber", "mode_update", "mode_update2", "depth_0", "depth_2", "entry_cli", "entry_toast_base") if c.get(k, 0) < 1]
+    miss = [k for k in ("fmt_npy", "fmt_fits", "fmt_png", "fmt_jpg", "mode_clobber", "mode_reclobber", "mode_update", "mode_update2", "depth_0", "depth_2", "entry_cli", "entry_toast_base", "concurrent_job_pairs") if c.get(k, 0) < 1]
     if miss or c.get("tiles_compared", 0) < 200:
         return dict(inconclusive="not reached: %s; tiles %s" % (miss, c.get("tiles_compared")))
     return {}
